@@ -538,36 +538,30 @@ theorem supported_keys {a : Str} (ha : a ∈ supported) :
   obtain ⟨⟨h1, h2⟩, h3⟩ := h a ha
   exact ⟨h1, h2, h3⟩
 
-theorem mdRowDict_zip (header row : List Str) (acc : KRow) (hh : ∀ c ∈ header, c ≠ [])
-    (hl : row.length ≤ header.length) :
-    mdRowDict (header.map toOpt) (row.map toOpt) acc = .ok (zipDict header row acc) := by
+theorem mdRowDict_zip (header row : List Str) (acc : KRow) (hh : ∀ c ∈ header, c ≠ []) :
+    mdRowDict (header.map toOpt) (row.map toOpt) acc = zipDict header row acc := by
   induction row generalizing header acc with
   | nil => cases header <;> simp [mdRowDict, zipDict]
   | cons v vs ih =>
     cases header with
-    | nil => simp at hl
+    | nil => simp [mdRowDict, zipDict]
     | cons h hs =>
       have hh' : ∀ c ∈ hs, c ≠ [] := fun c hc => hh c (by simp [hc])
-      have hl' : vs.length ≤ hs.length := by simpa using hl
       have hhne : h ≠ [] := hh h (by simp)
       by_cases hv : v = []
       · subst hv
-        simp only [List.map_cons, toOpt, if_true, mdRowDict, List.tail_cons, zipDict]
-        exact ih hs acc hh' hl'
+        simp only [List.map_cons, toOpt, if_true, mdRowDict, zipDict]
+        exact ih hs acc hh'
       · simp only [List.map_cons, toOpt, hv, hhne, if_false, mdRowDict, zipDict]
-        exact ih hs _ hh' hl'
+        exact ih hs _ hh'
 
-theorem mdRows_zip (header : List Str) (rows : List (List Str)) (hh : ∀ c ∈ header, c ≠ [])
-    (hl : ∀ r ∈ rows, r.length ≤ header.length) :
-    mdRows (header.map toOpt) (optRows rows) = .ok (rows.map (sheetRow header)) := by
-  induction rows with
-  | nil => simp [mdRows, optRows]
-  | cons r rows ih =>
-    have ih' := ih (fun r' hr' => hl r' (by simp [hr']))
-    simp only [optRows, List.map_cons] at ih' ⊢
-    rw [mdRows, mdRowDict_zip header r [] hh (hl r (by simp))]
-    simp only [ih']
-    rfl
+theorem mdRows_zip (header : List Str) (rows : List (List Str)) (hh : ∀ c ∈ header, c ≠ []) :
+    mdRows (header.map toOpt) (optRows rows) = rows.map (sheetRow header) := by
+  simp only [mdRows, optRows, List.map_map]
+  apply List.map_congr_left
+  intro r _
+  simp only [Function.comp, sheetRow]
+  exact mdRowDict_zip header r [] hh
 
 theorem map_optStr_toOpt (header : List Str) (hh : ∀ c ∈ header, c ≠ []) :
     (header.map toOpt).map optStr = header := by
@@ -578,12 +572,11 @@ theorem map_optStr_toOpt (header : List Str) (hh : ∀ c ∈ header, c ≠ []) :
     simp only [List.map_cons, toOpt, hhne, if_false, optStr]
     rw [ih (fun c hc => hh c (by simp [hc]))]
 
-theorem mdSheet_zip (key : Str) (s : Sheet) (b : Book) (hh : ∀ c ∈ s.header, c ≠ [])
-    (hl : ∀ r ∈ s.rows, r.length ≤ s.header.length) :
+theorem mdSheet_zip (key : Str) (s : Sheet) (b : Book) (hh : ∀ c ∈ s.header, c ≠ []) :
     mdSheet key (optRows (s.header :: s.rows)) b =
-      .ok (dset (key ++ headerSuffix) (.header (l2dl s.header))
-        (dset key (.rows (s.rows.map (sheetRow s.header))) b)) := by
-  have h1 := mdRows_zip s.header s.rows hh hl
+      dset (key ++ headerSuffix) (.header (l2dl s.header))
+        (dset key (.rows (s.rows.map (sheetRow s.header))) b) := by
+  have h1 := mdRows_zip s.header s.rows hh
   simp only [optRows, List.map_cons] at h1 ⊢
   rw [mdSheet]
   simp only [h1, map_optStr_toOpt s.header hh]
@@ -604,8 +597,7 @@ theorem keys_entries {k : Str} {pre : Workbook}
 
 /-- Prop form of the per-sheet guard for the book level -/
 def SheetQ (s : Sheet) : Prop :=
-  isAscii s.name = true ∧ lw s ∈ supported ∧ (∀ c ∈ s.header, c ≠ []) ∧
-    ∀ r ∈ s.rows, r.length ≤ s.header.length
+  isAscii s.name = true ∧ lw s ∈ supported ∧ ∀ c ∈ s.header, c ≠ []
 
 theorem toBook_snoc (pre : Workbook) (s : Sheet) :
     toBook (pre ++ [s]) =
@@ -655,7 +647,7 @@ theorem mdProcess_render (single : Bool) (wb pre : Workbook) (hok : ∀ s ∈ wb
   induction wb generalizing pre with
   | nil => simp [mdProcess]
   | cons s wb ih =>
-    obtain ⟨h1, h2, h3, h4⟩ := hok s (by simp)
+    obtain ⟨h1, h2, h3⟩ := hok s (by simp)
     simp only [List.map_cons, distinctB, Bool.and_eq_true, Bool.not_eq_true',
       List.contains_eq_mem, decide_eq_false_iff_not] at hd
     have hcont : supported.contains (lowerAscii s.name) = true := by
@@ -666,7 +658,7 @@ theorem mdProcess_render (single : Bool) (wb pre : Workbook) (hok : ∀ s ∈ wb
     simp only [List.map_cons, sheetStruct]
     rw [mdProcess]
     simp only [h1, Bool.not_true, Bool.false_eq_true, if_false, hcont, if_true, hb1]
-    rw [mdSheet_zip _ s _ h3 h4]
+    rw [mdSheet_zip _ s _ h3]
     have hstep := book_step pre s (Val.names (pre.map (·.name) ++ [s.name]))
       (.rows (s.rows.map (sheetRow s.header))) (.header (l2dl s.header)) hpre h2
       (hfresh s (by simp))
@@ -721,8 +713,8 @@ theorem sheetOK_unpack (s : Sheet) (h : sheetOK s = true) :
   simp only [sheetOK, nameOK, rowOK, Bool.and_eq_true, List.all_eq_true, List.any_eq_true,
     cellOK_iff, bne_iff_ne, ne_eq, decide_eq_true_eq, List.contains_eq_mem] at h
   obtain ⟨⟨⟨⟨⟨⟨⟨n1, n2⟩, n3⟩, n4⟩, n5⟩, h1⟩, h2⟩, h3⟩ := h
-  refine ⟨⟨n1, n3, ?_⟩, ⟨n4, n5, fun c hc => (h2 c hc).2, fun r hr => (h3 r hr).2⟩,
-    ⟨n2, fun c hc => (h2 c hc).1.2, fun r hr c hc => ((h3 r hr).1.1 c hc).2⟩⟩
+  refine ⟨⟨n1, n3, ?_⟩, ⟨n4, n5, fun c hc => (h2 c hc).2⟩,
+    ⟨n2, fun c hc => (h2 c hc).1.2, fun r hr c hc => ((h3 r hr).1 c hc).2⟩⟩
   intro r hr
   simp only [List.mem_cons] at hr
   rcases hr with rfl | hr
@@ -730,7 +722,7 @@ theorem sheetOK_unpack (s : Sheet) (h : sheetOK s = true) :
     cases hh : s.header with
     | nil => exact absurd hh h1
     | cons c t => exact ⟨c, by simp, (h2 c (by simp [hh])).2⟩
-  · exact ⟨fun c hc => ((h3 r hr).1.1 c hc).1, (h3 r hr).1.2⟩
+  · exact ⟨fun c hc => ((h3 r hr).1 c hc).1, (h3 r hr).2⟩
 
 /-- `_md_table_to_ss_structure` reads the rendered workbook back sheet by sheet -/
 theorem mdStructure_render (wb : Workbook) (hne : wb ≠ []) (h : MdOK wb = true) :
@@ -754,7 +746,11 @@ theorem md_roundtrip (wb : Workbook) (h : MdOK wb = true)
   have hs := mdStructure_render wb hne h
   simp only [MdOK, Bool.and_eq_true, List.all_eq_true] at h
   unfold mdToDict
-  simp only [hm, Bool.not_true, Bool.false_eq_true, if_false, hs]
+  have hemp : (wb.map sheetStruct).isEmpty = false := by
+    cases wb with
+    | nil => exact absurd rfl hne
+    | cons _ _ => rfl
+  simp only [hm, Bool.not_true, Bool.false_eq_true, if_false, hs, hemp]
   have := mdProcess_render (decide ((wb.map sheetStruct).length = 1)) wb []
     (fun s hs => (sheetOK_unpack s (h.1 s hs)).2.1) (by simp) h.2 (by simp)
   simpa [toBook] using this
@@ -828,8 +824,14 @@ def exNone : Workbook :=
 
 /-- the guard is not idle: a blank data row is dropped (F16) … -/
 example : MdOK exBlank = false ∧ mdToDict (renderMd exBlank) ≠ .ok (toBook exBlank) := by decide
-/-- … a non-empty cell beyond the header is an IndexError (F27) … -/
-example : MdOK exLong = false ∧ mdToDict (renderMd exLong) = .error .indexError := by decide
+/-- … a cell beyond the header is ignored, as by the dict container (F27 repaired): such a
+workbook satisfies the guard and round-trips … -/
+example : MdOK exLong = true ∧ mdToDict (renderMd exLong) = .ok (toBook exLong) := by decide
+example : mdToDict (renderMd exLong) = .ok (toBook exLong) :=
+  md_roundtrip exLong (by decide) (by decide)
+/-- … text with pipes but no table row is "not Markdown" … -/
+example : isMarkdownTable "a|b|c|d|e|f".toList = true ∧
+    mdToDict "a|b|c|d|e|f".toList = .error .readError := by decide
 /-- … and an empty header cell becomes the key `None` -/
 example : MdOK exNone = false ∧ mdToDict (renderMd exNone) ≠ .ok (toBook exNone) := by decide
 
